@@ -85,22 +85,42 @@ def units(tier):
     P = 8 if th else 4
     for part in range(P + 1):
         out.append({"kind": "qam", "M": 4 ** 6, "level": lev if th else 0, "part": [part, P]})
+    for name, via in (("irregular5", "Modulator"), ("two_rings8", "Modulator"), ("line3", "Modulator"),
+                      ("two_rings8", "PSK8"), ("irregular5", "QAM4"), ("line3", "PSK4")):
+        out.append({"kind": "custom", "M": len(CUSTOM_TABLES[name]), "name": name, "via": via, "level": lev})
+    out.append({"kind": "interplay"})
     for cls in ("PSK", "QAM"):
         for a in range(0, MAX_CARD + 1, 256):
             out.append({"kind": "ctor", "cls": cls, "lo": a, "hi": min(MAX_CARD + 1, a + 256)})
     # cheapest first (smallest counterexample first); dealing this order round-robin to the shards
     # also spreads the few heavy units over different shards
     def cost(u):
-        if u["kind"] == "ctor":
-            return 0
+        if u["kind"] in ("ctor", "interplay"):
+            return 0 if u["kind"] == "ctor" else 3000
         return u["M"] ** 2 * len(histories(u)) * (3 if u["level"] else 1)
     out.sort(key=cost)
     return out
 
 
+CUSTOM_TABLES = {
+    # setConstellation() called directly: any table, here normalised to unit mean energy
+    "irregular5": [0.3 + 0.1j, -1 + 0.2j, 0.5 - 1.2j, 1.4 + 0.9j, -0.2 + 1.1j],
+    "two_rings8": [0.5 * np.exp(1j * k * np.pi / 2) for k in range(4)]
+                  + [1.3 * np.exp(1j * (np.pi / 4 + k * np.pi / 2)) for k in range(4)],
+    "line3": [-1.5, 0.2, 1.0],          # real dtype table
+}
+
+
+def custom_table(name):
+    t = np.array(CUSTOM_TABLES[name])
+    return t / math.sqrt(float(np.mean(np.abs(t) ** 2)))
+
+
 def histories(u):
     """all histories of a unit, as lists of ["new"|"set", phi]"""
     kind = u["kind"]
+    if kind == "custom":
+        return [[["custom", u["name"], u["via"]]]]
     if kind in ("bpsk", "qam"):
         return [[]]
     if kind == "qpsk":
@@ -119,6 +139,12 @@ def build(kind, M, hist):
         return F.BPSK()
     if kind == "qam":
         return F.QAM(M)
+    if kind == "custom":
+        _, name, via = hist[0]
+        m = {"Modulator": F.Modulator, "PSK8": lambda: F.PSK(8), "PSK4": lambda: F.PSK(4, 0.3),
+             "QAM4": lambda: F.QAM(4)}[via]()
+        m.setConstellation(custom_table(name))
+        return m
     if kind == "qpsk":
         m = F.QPSK()
         evs = hist
@@ -390,6 +416,12 @@ def index_forms(M, is_bpsk, reduced=False):
         forms.append(("int16_2d_T", "noncontiguous", present(ar.astype(np.int16), "2d_T"), (2, n // 2)))
     for shp in ((0,), (0, 2), (2, 0)):
         forms.append(("empty%r" % (shp,), "empty", np.zeros(shp, dtype=int), shp))
+    # falsy but valid: index 0 only
+    for shp in ((1,), (1, 1), (2, 2), (5,)):
+        forms.append(("zeros%r" % (shp,), "all_zero_indexes", np.zeros(shp, dtype=int), shp))
+    forms.append(("zeros_uint8", "all_zero_indexes", np.zeros(3, dtype=np.uint8), (3,)))
+    if not is_bpsk:
+        forms.append(("pylist_zero", "all_zero_indexes", [0], (1,)))
     if not is_bpsk:        # BPSK.modulate documents np.ndarray only (list > 1 is a TypeError)
         forms.append(("pylist", "pylist", [int(v) for v in ar], (n,)))
         if M >= 2 and not reduced:
@@ -451,7 +483,38 @@ def check_roundtrip(chk, lab, m, M, spec):
                              dict(case, index=k), observed=rx, expected=k)
 
 
+def obj_digest(m):
+    """everything the instance holds (arrays by dtype/shape/bytes)"""
+    out = [type(m).__name__]
+    for k in sorted(vars(m)):
+        v = vars(m)[k]
+        if isinstance(v, np.ndarray):
+            out.append((k, str(v.dtype), v.shape, v.tobytes()))
+        else:
+            out.append((k, type(v).__name__, repr(v)))
+    return tuple(out)
+
+
 def check_invalid_indexes(chk, lab, m, M, spec):
+    before = obj_digest(m)
+    _check_invalid_indexes(chk, lab, m, M, spec)
+    if hasattr(m, "setPhaseOffset"):
+        # no validation exists for the offset: a value that cannot be an angle must at least not
+        # leave a half-updated object behind
+        for bad in ("x", None):
+            chk.count("eval_invalid_index_calls")
+            try:
+                m.setPhaseOffset(bad)
+            except Exception:  # noqa
+                continue
+            chk.fail(("setPhaseOffset", "invalid_value_accepted"), dict(spec, what="invalid_index", value=repr(bad)))
+    if obj_digest(m) != before:
+        chk.fail(("error_path", lab, "object_changed_by_failed_call"), dict(spec, what="invalid_index"),
+                 observed=[e for e in obj_digest(m) if e not in before][:2],
+                 expected="object exactly as before the rejected calls")
+
+
+def _check_invalid_indexes(chk, lab, m, M, spec):
     bad_values = [M, M + 1, 2 * M, 2 ** 31]
     inputs = []
     for v in bad_values:
@@ -730,6 +793,142 @@ def check_object(chk, u, hist):
             chk.fail(("table", lab, "changed_by_calls"), dict(spec, what="object"))
 
 
+# ----------------------------------------------------------------------
+# several live objects, alternative entry points, long setPhaseOffset chains
+# ----------------------------------------------------------------------
+def _probe(sym):
+    """small deterministic workload for one table: indexes, samples and the oracle's decisions"""
+    sym = np.asarray(sym)
+    M = sym.size
+    dmin, _ = table_geometry(sym)
+    idx = index_sequence(M)[:32]
+    z = sym.astype(complex)[idx] + 0.3 * dmin * np.exp(1j * (0.7 + idx))
+    want, best, second = nearest(sym, z)
+    thr = TIE_REL_DMIN2 * dmin * dmin + TIE_REL_FLOAT * best
+    return dict(sym=sym.copy(), idx=idx, z=z, want=want, decided=(second - best) >= thr)
+
+
+def _do(m, op, pr):
+    """run one operation of the workload on the object; returns None when it agrees with the oracle"""
+    if op == "mod":
+        tx = m.modulate(pr["idx"].copy())
+        if np.shape(tx) != pr["idx"].shape or not np.array_equal(np.asarray(tx), pr["sym"][pr["idx"]]):
+            return np.asarray(tx).ravel()[:4], pr["sym"][pr["idx"]][:4]
+    elif op == "demod":
+        rx = m.demodulate(pr["z"].copy())
+        if np.shape(rx) != pr["z"].shape or np.any((np.asarray(rx) != pr["want"]) & pr["decided"]):
+            return np.asarray(rx).ravel()[:8], pr["want"][:8]
+    elif op == "peek":               # name / repr / properties must be pure observers
+        repr(m), m.name, m.M, m.K
+    return None
+
+
+def run_interplay(chk):
+    import itertools
+    from pyphysim.modulators import fundamental as F
+    pi = math.pi
+    specs = {"psk4": ("psk", 4, [["new", 0.0]]), "qam4": ("qam", 4, []), "psk16": ("psk", 16, [["new", 0.0]]),
+             "qam16": ("qam", 16, []), "psk64": ("psk", 64, [["new", pi / 7]]), "qam64": ("qam", 64, []),
+             "psk8a": ("psk", 8, [["new", 0.0]]), "psk8b": ("psk", 8, [["new", 1.0]]),
+             "psk8set": ("psk", 8, [["new", 0.0], ["set", -2.5]]), "bpsk": ("bpsk", 2, []),
+             "qpsk": ("qpsk", 4, []), "psk4q": ("psk", 4, [["new", pi / 4]]), "psk2": ("psk", 2, [["new", 0.0]])}
+    pairs = [("psk4", "qam4"), ("psk16", "qam16"), ("psk64", "qam64"), ("psk8a", "psk8b"), ("psk8a", "psk8set"),
+             ("bpsk", "qpsk"), ("psk8a", "psk16"), ("qpsk", "psk4q"), ("bpsk", "psk2"), ("qam16", "qam64")]
+    # (2) several live objects, every order of the four operations, twice in a row (depth 8),
+    #     both construction orders; expectations come from the table snapshot taken at construction
+    for na, nb in pairs:
+        for first, second in ((na, nb), (nb, na)):
+            case = {"kind": "interplay", "what": "pair", "objects": [first, second]}
+            with chk.guard(("interplay", "pair"), case):
+                objs, probes, digests = {}, {}, {}
+                for nm in (first, second):
+                    objs[nm] = build(*specs[nm])
+                    probes[nm] = _probe(objs[nm].symbols)
+                    digests[nm] = obj_digest(objs[nm])
+                ops = [(first, "mod"), (second, "mod"), (first, "demod"), (second, "demod")]
+                for perm in itertools.permutations(ops):
+                    seq = list(perm) + [(first, "peek"), (second, "peek")] + list(perm)
+                    for step, (nm, op) in enumerate(seq):
+                        chk.count("eval_interplay_ops")
+                        r = _do(objs[nm], op, probes[nm])
+                        if r is not None:
+                            chk.fail(("interplay", "pair", "result_wrong_with_other_live_object", op),
+                                     dict(case, sequence=[list(x) for x in seq], step=step), observed=r[0], expected=r[1])
+                            break
+                    else:
+                        continue
+                    break
+                for nm in (first, second):
+                    if obj_digest(objs[nm]) != digests[nm]:
+                        chk.fail(("interplay", "pair", "object_changed_by_calls_on_other_object"), dict(case, object=nm))
+                    lone = build(*specs[nm])
+                    if obj_digest(lone) != digests[nm]:
+                        chk.fail(("interplay", "pair", "fresh_object_differs_from_earlier_one"), dict(case, object=nm))
+            chk.outcome("interplay", ("pair", first, second))
+    # (3) alternative entry points
+    case = {"kind": "interplay", "what": "entry_points"}
+    with chk.guard(("interplay", "entry_points"), case):
+        q, p = F.QPSK(), F.PSK(4, pi / 4)
+        if not (np.array_equal(q.symbols, p.symbols) and q.M == p.M and q.K == p.K):
+            chk.fail(("interplay", "entry_points", "QPSK!=PSK(4,pi/4)", "table"), case, observed=q.symbols, expected=p.symbols)
+        pr = _probe(p.symbols)
+        for op in ("mod", "demod"):
+            if _do(q, op, pr) is not None:
+                chk.fail(("interplay", "entry_points", "QPSK!=PSK(4,pi/4)", op), case)
+        b, p2 = F.BPSK(), F.PSK(2)
+        lat = (np.linspace(-1.6, 1.6, 33)[None, :] + 0.013 + 1j * (np.linspace(-1.6, 1.6, 33)[:, None] + 0.007)).ravel()
+        if not np.array_equal(np.asarray(b.symbols).astype(complex), np.asarray(p2.symbols)):
+            chk.fail(("interplay", "entry_points", "BPSK!=PSK(2)", "table"), case, observed=b.symbols, expected=p2.symbols)
+        if not np.array_equal(b.demodulate(lat), p2.demodulate(lat)):
+            chk.fail(("interplay", "entry_points", "BPSK!=PSK(2)", "demod"), case)
+        if not np.array_equal(b.modulate(np.array([0, 1, 1, 0])), np.real(p2.modulate(np.array([0, 1, 1, 0])))):
+            chk.fail(("interplay", "entry_points", "BPSK!=PSK(2)", "mod"), case)
+        # (4) phase offset 0 / 0.0 / -0.0 / default are the same table; 2 pi the same points up to rounding;
+        #     constructor and setPhaseOffset must place the same point SET for the same offset
+        for M in (2, 4, 8, 16):
+            base_t = np.asarray(F.PSK(M).symbols)
+            for zero in (0, 0.0, -0.0, False):
+                if not np.array_equal(np.asarray(F.PSK(M, zero).symbols), base_t):
+                    chk.fail(("interplay", "entry_points", "PSK(M,0)!=PSK(M)"), dict(case, M=M, offset=repr(zero)))
+            if np.max(np.abs(np.asarray(F.PSK(M, 2 * pi).symbols) - base_t)) > 1e-14:
+                chk.fail(("interplay", "entry_points", "PSK(M,2pi)!=PSK(M)"), dict(case, M=M))
+            for phi in offsets(M) + [0, 0.0, -0.0, 2 * pi]:
+                a = np.asarray(F.PSK(M, phi).symbols)
+                o = F.PSK(M, 0.3)
+                o.setPhaseOffset(phi)
+                c = np.asarray(o.symbols)
+                chk.count("eval_interplay_ops")
+                # same set of points: every point of one table has a partner in the other
+                d = np.abs(a[:, None] - c[None, :])
+                if d.min(axis=1).max() > 1e-12 or d.min(axis=0).max() > 1e-12:
+                    chk.fail(("interplay", "entry_points", "PSK(M,phi)_and_setPhaseOffset(phi)_place_different_points"),
+                             dict(case, M=M, offset=repr(phi)), observed=a[:4], expected=c[:4])
+    chk.outcome("interplay", ("entry_points",))
+    # (5) long chains of setPhaseOffset on one object: every step compared with a two-step object
+    for M in (2, 4, 8, 64):
+        case = {"kind": "interplay", "what": "chain", "M": M}
+        with chk.guard(("interplay", "chain"), case):
+            m = F.PSK(M, 0.3)
+            chain = offsets(M) + [0, 0.0, 2 * pi] + offsets(M)[::-1]
+            for step, phi in enumerate(chain):
+                m.setPhaseOffset(phi)
+                ref = F.PSK(M, 1.1)
+                ref.setPhaseOffset(phi)
+                chk.count("eval_interplay_ops")
+                if obj_digest(m) != obj_digest(ref):
+                    chk.fail(("interplay", "chain", "table_depends_on_earlier_setPhaseOffset_calls"),
+                             dict(case, step=step, offsets=[repr(x) for x in chain[:step + 1]]),
+                             observed=np.asarray(m.symbols)[:4], expected=np.asarray(ref.symbols)[:4])
+                    break
+                pr = _probe(ref.symbols)
+                for op in ("mod", "demod", "peek", "demod", "mod"):
+                    r = _do(m, op, pr)
+                    if r is not None:
+                        chk.fail(("interplay", "chain", "result_wrong_after_setPhaseOffset_chain", op),
+                                 dict(case, step=step), observed=r[0], expected=r[1])
+        chk.outcome("interplay", ("chain", M))
+
+
 def supported(cls, M):
     if M < 2 or M & (M - 1):
         return False
@@ -765,6 +964,9 @@ def check_ctor(chk, cls, M):
 
 
 def run_unit(chk, u):
+    if u["kind"] == "interplay":
+        run_interplay(chk)
+        return
     if u["kind"] == "ctor":
         for M in range(u["lo"], u["hi"]):
             check_ctor(chk, u["cls"], M)
@@ -819,7 +1021,8 @@ def main(chk: Check):
     chk.require_outcomes("regions_hit", 18)
     chk.require_outcomes("ctor", 4)
     chk.require_outcomes("invalid_index", 12)
-    chk.require_outcomes("index_presentation", 25)
+    chk.require_outcomes("index_presentation", 30)
+    chk.require_outcomes("interplay", 8)
     chk.require_outcomes("buffer_reuse", 4)
     chk.require_outcomes("sample_presentation", len(DETECTION_FORMS))
     if not chk.counters.get("near_boundary_samples_decided"):
@@ -830,8 +1033,14 @@ def replay(case, chk: Check):
     if case.get("kind") == "ctor":
         check_ctor(chk, case["cls"], int(case["M"]))
         return
+    if case.get("kind") == "interplay":
+        run_interplay(chk)
+        return
     kind, M = case["kind"], int(case["M"])
-    hist = [[ev[0], float(ev[1])] for ev in case.get("history", [])]
+    if kind == "custom":
+        hist = [list(ev) for ev in case["history"]]
+    else:
+        hist = [[ev[0], float(ev[1])] for ev in case.get("history", [])]
     u = {"kind": kind, "M": M, "level": int(case.get("level", 1))}
     if "part" in case:
         u["part"] = [int(v) for v in case["part"]]
